@@ -169,19 +169,22 @@ TIES = {
  'C05': ('translate/pycapture2coq.py -> coq/gen/CaptureGen.v: the capture_epoch coroutine as a step function and the WHOLE loop body of extract_epochs (removal '
          'drain, intake, replay, delivery, pruning, all-done callback) as a send function; tie theorems Extract/ProofsTie.v, ProofsTieSend.v (C05_source_*), incl. '
          'C05_source_refines_spec over runs of the generated send'),
- 'C12': ('translate/pycoro2coq.py -> coq/gen/StagesStepGen.v: discard, blocked, downsample, derivative, decimate, rms, event_rate, transform, mc_reference, '
-         'iirfilter coroutines as step functions; '
+ 'C12': ('translate/pycoro2coq.py -> coq/gen/StagesStepGen.v: all eleven stages (discard, blocked, downsample, derivative, decimate, rms, event_rate, transform, '
+         'mc_reference, iirfilter, auto_th) as step functions; '
          'tie theorems Stages/ProofsTie.v (C12_source_*): generated step = model step for ALL states and chunks'),
  'C14': ('translate/pybuffer2coq.py -> coq/gen/BufferStepGen.v: every SignalBuffer method statement by statement; tie theorems Buffer/ProofsTie.v '
          '(C14_source_*): reads equal for every state, mutators equal under the buffer invariant up to slots below the valid start'),
  'C02': ('translate/pyqueue2coq.py -> coq/gen/QueueStepGen.v: _get_samples_waveform / _get_samples_generator, remove_key, decrement_key and next_key of every queue '
          'class, pop_key, pop_next, next_trial, _pop_buffer and the pop_buffer loop; tie theorems Queue/ProofsTie.v (C02_source_*): same state, value and '
          'notifications as the model for every well-formed queue state'),
+ 'C04': ('translate/pyqueue2coq.py -> coq/gen/QueueStepGen.v (as C02) plus pause, _ends_after, cancel, requeue (base and interleaved), resume, rewind_samples; tie '
+         'theorems Queue/ProofsTieC04.v (C04_source_*): a history run with the generated pop_buffer / pause / resume is the model history; conservation, at-empty, '
+         'pause-exact and future-pause rejection restated over it'),
  'C03': ('translate/pyqueue2coq.py -> coq/gen/QueueStepGen.v (as C02); C03_source_* restate policy order / after-empty over runs of the generated pop_buffer'),
  'C10': ('translate/pydeterm2coq.py -> coq/gen/DetermGen.v: an ALIASING translator (fresh array / view / in-place write / read-only flag per NumPy operation) of '
          'fast_cache, FixedWaveform.next, GateFactory.next, ToneFactory / SilenceFactory next and the reset methods; tie theorems Determ/ProofsTie.v (C10_source_*)'),
- 'C11': ('translate/pypdata2coq.py -> coq/gen/PDataGen.v: normalize_index in full and the annotation fix-up of PipelineData.__getitem__; tie theorems '
-         'PData/ProofsTie.v (C11_source_*): generated = model for every index value and every array'),
+ 'C11': ('translate/pypdata2coq.py -> coq/gen/PDataGen.v: normalize_index in full, the annotation fix-up of PipelineData.__getitem__, ensure_dim and concat (annotated pieces); tie theorems '
+         'PData/ProofsTie.v, ProofsTieConcat.v (C11_source_*): generated = model for every index value and every array'),
  'C13': ('translate/pyedges2coq.py -> coq/gen/EdgesGen.v (on top of gen/RunsGen.v): the edges coroutine as start / step functions, Events.get_range_samples / '
          'get_latest_samples; tie theorems Edges/ProofsTie.v (C13_source_*)'),
  'C17': ('translate/pyreject2coq.py -> coq/gen/RejectGen.v: reject_epochs set-up and loop body over a small NumPy vocabulary (coq/Reject/NumpyPrims.v); tie theorems '
@@ -197,3 +200,7 @@ for _p, _t in TIES.items():
         'pins by exact source text and the NumPy primitives it maps to model functions are trusted (listed in the evidence file)')
     if 'translator tie' not in CHECKS[_p]['note']:
         CHECKS[_p]['note'] += ' Translator tie: ' + _t + '.'
+
+CHECKS['C06']['note'] += (' Both component models (Queue, Extract) are additionally tied to queue.py / pipeline.py by translator ties (C02-C05: C0x_source_* '
+                          'theorems); the C06 composition theorems themselves are stated over the hand-written component models (C06 composition over the '
+                          'generated definitions was not restated).')
